@@ -24,6 +24,7 @@ func (i IntT) Less(j interface{}) bool { return i < j.(IntT) }
 type RecT struct {
 	Key     int
 	Payload string
+	Extra   int
 }
 
 func (r RecT) Less(j interface{}) bool { return r.Key < j.(RecT).Key }
@@ -61,6 +62,7 @@ func errf(kind, format string, a ...interface{}) *Err {
 type item struct {
 	key     int
 	payload string
+	extra   int
 }
 
 // Sorter wraps a Morass with its element type.
@@ -123,7 +125,7 @@ func (s *Sorter) RunFiles() []string {
 
 func (s *Sorter) Push(it item) error {
 	if s.Struct {
-		return s.M.Push(RecT{Key: it.key, Payload: it.payload})
+		return s.M.Push(RecT{Key: it.key, Payload: it.payload, Extra: it.extra})
 	}
 	return s.M.Push(IntT(it.key))
 }
@@ -132,11 +134,11 @@ func (s *Sorter) Pull() (item, error) {
 	if s.Struct {
 		var v RecT
 		err := s.M.Pull(&v)
-		return item{v.Key, v.Payload}, err
+		return item{v.Key, v.Payload, v.Extra}, err
 	}
 	var v IntT
 	err := s.M.Pull(&v)
-	return item{int(v), ""}, err
+	return item{int(v), "", 0}, err
 }
 
 // Event reports what a run observed (for classification and for C13).
@@ -177,7 +179,14 @@ func RunWith(h History, s *Sorter, tolerateErrors bool, mark func(string) *Err) 
 		for i, k := range c.Keys {
 			it := item{key: k}
 			if h.Struct {
-				it.payload = fmt.Sprintf("c%d-%d", ci, i)
+				// payload and extra field are derived from the index; both are zero-valued for some
+				// elements so that zero and non-zero fields alternate within a sorted run
+				if i%4 != 0 {
+					it.payload = fmt.Sprintf("c%d-%d", ci, i)
+				}
+				if i%3 != 0 {
+					it.extra = i*7 + 1
+				}
 			}
 			if err := s.Push(it); err != nil {
 				return fail(fmt.Sprintf("cycle %d push %d", ci, i), err)
@@ -221,7 +230,7 @@ func RunWith(h History, s *Sorter, tolerateErrors bool, mark func(string) *Err) 
 				return fail(fmt.Sprintf("cycle %d pull %d", ci, pulled), err)
 			}
 			if !h.Struct {
-				it.payload = ""
+				it.payload, it.extra = "", 0
 			}
 			if pushed[it] == 0 {
 				return out, errf("foreign-value", "cycle %d (%d pushed, chunk %d, spilled=%v): pull %d returned %v which was not pushed in this cycle or was already delivered; delivered so far %v", ci, len(c.Keys), h.Chunk, spilled, pulled, it, out.Delivered[ci])
